@@ -145,13 +145,52 @@ def _set_http_status(resp: falcon.Response, status_code: HTTPStatus) -> None:
         resp.status = str(status_code.value)
 
 
+_BODY_READ_CHUNK_BYTES = 65536
+
+
+def _read_request_body(req: falcon.Request, limit: int | None = None) -> bytes:
+    """Read the raw (still content-encoded) request body, at most *limit* bytes.
+
+    With a ``Content-Length`` the body is read through Falcon's
+    ``req.bounded_stream``, which never reads past the declared length.  Without
+    one (``Transfer-Encoding: chunked``) ``bounded_stream`` is *empty* by
+    construction — it bounds by a length it does not have — so the body has to
+    come from ``wsgi.input`` itself.  That is only safe when the server marks
+    the stream ``wsgi.input_terminated`` (gunicorn, werkzeug; it de-chunks and
+    signals end of body as EOF); on a server that does not, reading past the
+    body can block, and the request keeps its historical empty body.
+
+    Args:
+        req: The Falcon request.
+        limit: Stop after this many bytes, or ``None`` to read to the end.
+
+    Returns:
+        The body bytes read.
+
+    """
+    if req.content_length is not None or not req.env.get("wsgi.input_terminated"):
+        stream = req.bounded_stream
+        return stream.read() if limit is None else stream.read(limit)
+    # A raw wsgi.input may return short reads; loop until EOF or the limit.
+    chunks: list[bytes] = []
+    remaining = limit
+    while remaining is None or remaining > 0:
+        chunk = req.stream.read(_BODY_READ_CHUNK_BYTES if remaining is None else min(remaining, _BODY_READ_CHUNK_BYTES))
+        if not chunk:
+            break
+        chunks.append(chunk)
+        if remaining is not None:
+            remaining -= len(chunk)
+    return b"".join(chunks)
+
+
 def _get_request_stream(req: falcon.Request) -> IOBase | pa.NativeFile:
     """Return the request body stream, using the decompressed stream if available.
 
     When ``_CompressionMiddleware`` is active and the request body was
     compressed, the decompressed bytes are stored in ``req.context.decompressed_stream``.
-    This helper returns that stream when present, falling back to Falcon's
-    ``req.bounded_stream``.
+    This helper returns that stream when present, falling back to the raw
+    request body (see :func:`_read_request_body`).
 
     Args:
         req: The Falcon request.
@@ -169,7 +208,7 @@ def _get_request_stream(req: falcon.Request) -> IOBase | pa.NativeFile:
     # keeping the reads in C++ instead of calling back into Python.
     body = getattr(req.context, "capped_request_body", None)
     if body is None:
-        body = req.bounded_stream.read()
+        body = _read_request_body(req)
     _current_request_batch.set(body)
     return pa.BufferReader(body)
 
